@@ -142,7 +142,7 @@ def r19_5(ctx):
     whitespace or ';'"""
     from lib.ast import walk
     from lib.flat import scalar_consts, Config, explore, run_body
-    its = [x for x in ctx.ast.crates["html5ever"] if x["k"] == "Fn" and x["name"] == "extract_a_character_encoding_from_a_meta_element" and x.get("body") is not None]
+    its = [x for x in ctx.ast.walkable("html5ever") if x["k"] == "Fn" and x["name"] == "extract_a_character_encoding_from_a_meta_element" and x.get("body") is not None]
     if len(its) != 1:
         raise AnchorMissing("extract_a_character_encoding_from_a_meta_element not found")
     clos = []
@@ -167,7 +167,7 @@ def r19_5(ctx):
             continue  # depends on a captured value (the quote character): not a fixed set
         members = set()
         for v in range(256):
-            cfg = Config(acquire={}, primitives=set(), inline={}, guards=set(), samples=[], accessors=set(), full_call_text=True, generic_loops=True, consts=scalar_consts(ctx.ast.crates["html5ever"]))
+            cfg = Config(acquire={}, primitives=set(), inline={}, guards=set(), samples=[], accessors=set(), full_call_text=True, generic_loops=True, consts=scalar_consts(ctx.ast.walkable("html5ever")))
             body = c["body"] if isinstance(c["body"], list) else [{"k": "ExprStmt", "e": c["body"], "semi": False}]
             paths = explore(cfg, lambda run, v=v: run_body(run, body, {pname: v}))
             outs = {p["outcome"][1] if len(p["outcome"]) > 1 else None for p in paths}
